@@ -19,6 +19,7 @@ SOURCES = [
     ['list', [3, 1, 2], 'pickle'],
     ['list', [5], 'copy'],
     ['dict', [], 'pickle'],
+    ['list', [7, 1, 2, 3, 4, 5, 6, 8], 'pickle'],
 ]
 
 OPS = [
@@ -178,9 +179,26 @@ def check_program(program, st, report):
     if log:
         report(f'runs-at-construction/{top}', f'building the pipeline called {log}')
         return ref
-    # (b) every prefix of one iteration
+    # (b) every prefix of one iteration (of the pipeline, and of a copy() of a second fresh build)
     n = ref.n()
-    seen = set()
+    for via_copy in (False, True):
+        if via_copy:
+            log = []
+            try:
+                ds = build_real(program, log).copy()
+            except BaseException:       # noqa: BLE001
+                break
+            if log:
+                report(f'runs-at-copy/{top}', f'copy() called {log}')
+                return ref
+        r = _prefixes(ds, ref, dem, log, n, top + ('/via-copy' if via_copy else ''), st, report)
+        if r is not None:
+            return r
+    _point_access(program, ref, dem, n, top, st, report)
+    return ref
+
+
+def _prefixes(ds, ref, dem, log, n, top, st, report):
     try:
         with O.deadline(20):
             it = iter(ds)
@@ -209,7 +227,11 @@ def check_program(program, st, report):
                     break
     except BaseException:       # noqa: BLE001
         st['not_evaluable'] += 1
-        return None
+        return ref
+    return None
+
+
+def _point_access(program, ref, dem, n, top, st, report):
     # (c) point access on a fresh object
     for i in range(n):
         if dem.rand[i] is None and (dem.keyrand is None or dem.keyrand[i] is None):
